@@ -5,6 +5,7 @@ package hv
 import (
 	"context"
 	"fmt"
+	"io"
 	"net/http"
 	"net/url"
 	"sort"
@@ -164,6 +165,7 @@ type Writer struct {
 	Body   []byte
 	Writes int
 	Info   []string // informational (1xx) responses sent before the final one: "103 <headers at that moment>"
+	Broken bool     // the peer is gone: every Write fails
 }
 
 func NewWriter() *Writer { return &Writer{H: http.Header{}} }
@@ -196,6 +198,9 @@ func (w *Writer) Write(b []byte) (int, error) {
 		w.WriteHeader(200)
 	}
 	w.Writes++
+	if w.Broken {
+		return 0, io.ErrClosedPipe
+	}
 	w.Body = append(w.Body, b...)
 	return len(b), nil
 }
